@@ -17,7 +17,7 @@ ASSUME_COMMON = [
 PROPS = {
     "C01": {
         # the passive oracle runs in every L1 family; a family listed more than once gets that share of the runs
-        "families": ["c01a", "c01a", "c01a", "c01a", "c01b", "c01b", "c02", "c03", "c04", "c15"],
+        "families": ["c01a", "c01a", "c01a", "c01a", "c01b", "c01b", "c02", "c03", "c04", "c04s", "c15"],
         "runs": {"quick": 20000, "thorough": 300000},
         "level": "exploration",
         "rule": "one evaluation = one simulated run of the real protocol stack over a seeded traffic plan (well-formed, mutated, noisy telegrams; seeded chunking, latencies, stalls, handler configuration). "
@@ -27,7 +27,7 @@ PROPS = {
                                         "telegrams with NN > 16 are outside the statement and judged EITHER"],
     },
     "C02": {
-        "families": ["c02"] * 3 + ["c02e"] * 3 + ["c01b", "c03", "c04", "c15"],
+        "families": ["c02"] * 3 + ["c02e"] * 3 + ["c01b", "c03", "c04", "c04s", "c15"],
         "runs": {"quick": 30000, "thorough": 400000},
         "level": "fault_enumeration",
         "rule": "one evaluation = one simulated run; family c02e enumerates, per seeded base scenario (request, configuration), every alternative of the addressed participant's reaction (ACK/NAK/other/silence/SYN at either attempt, response good/bad CRC/short/long/none at either attempt) and an echo mismatch at every transmitted byte position 0..23; c02/c01b add random multi-fault runs. Non-trivial = at least one own exchange reached the wire; distinct = distinct trace hashes among those.",
@@ -35,7 +35,7 @@ PROPS = {
         "assumptions": ASSUME_COMMON + ["the final SYN is only demanded after a valid exchange", "after a second bad response NAK, NAK+SYN or SYN are all accepted (the statement only forbids ACK)"],
     },
     "C03": {
-        "families": ["c03"] * 3 + ["c01a", "c01b", "c04", "c15", "c02"],
+        "families": ["c03"] * 3 + ["c01a", "c01b", "c04", "c04s", "c15", "c02"],
         "runs": {"quick": 30000, "thorough": 400000},
         "level": "exploration",
         "rule": "one evaluation = one simulated run; every write of ebusd to the device is judged by an entitlement monitor from the bytes the kernel had handed to ebusd at that instant. Non-trivial = ebusd transmitted at least once or was read-only with requests pending; distinct = distinct trace hashes among those.",
@@ -43,7 +43,7 @@ PROPS = {
         "assumptions": ASSUME_COMMON + ["the lock counter is judged only through what the statement says explicitly: no arbitration at the first SYN after a lost arbitration"],
     },
     "C04": {
-        "families": ["c04"] * 3 + ["c04e"] * 3 + ["c03", "c02", "c01b", "c15"],
+        "families": ["c04"] * 3 + ["c04s"] * 3 + ["c04e"] * 2 + ["c03", "c02", "c01b", "c15"],
         "claims": ["C04"],   # use-after-free / double free of request objects and hangs are what C04 forbids: sanitizer and watchdog hits in these families count for C04
         "runs": {"quick": 30000, "thorough": 400000},
         "level": "fault_enumeration",
@@ -86,25 +86,25 @@ PROPS = {
                        "stub": ["clock and role threads: /verif/sim/simkernel.cpp", "Resolver: minimal test double"]},
         "assumptions": ASSUME_COMMON + ["fairness bounds: |n_i*p_i - n_j*p_j| <= 36 + 2*max(p) and re-selection within 1 + sum floor(36/p_j) + 2 selections, after one settling window following each perturbation"],
     },
-    "C09": {"families": ["c09", "c12o"], "runs": {"quick": 15000, "thorough": 300000}, "level": "exploration", "timeout_ms": 60000,
+    "C09": {"families": ["c09"] * 5 + ["c12o"] * 2 + ["c09w", "c09s", "c09f", "c09f"], "claims": ["C12:load-order-dependent-result"], "runs": {"quick": 15000, "thorough": 300000}, "level": "exploration", "timeout_ms": 30000,
         "rule": "one evaluation = one simulated run of the whole daemon (everything but main()) with a generated definition set (read/write, 1..3 fields of UCH SCH UIN ULG HEX STR, chained IDs with explicit lengths, poll priorities), a simulated heating system answering every exchange with values unique in the run, 1..3 TCP clients issuing read/read -f/write, slave reactions with NAK/bad CRC/silence, polls in the background. Non-trivial = at least one client command was judged; distinct = distinct trace hashes among those.",
         "components": {"real": ["src/ebusd: mainloop.cpp bushandler.cpp network.cpp request.cpp scan.cpp main_args.cpp datahandler.cpp mqtthandler.cpp", "src/lib/ebus: all", "src/lib/utils: all"],
                        "stub": ["main() (assembly replicated in /verif/sim/h_l3.cpp)", "kernel, sockets, clock, scheduler: /verif/sim/simkernel.cpp", "bus, slaves, SYN generator: /verif/sim/simbus.cpp", "MQTT client library: /verif/sim/mqtt_stub.cpp", "KNX, SSL, update check: not built / disabled"]},
         "assumptions": ASSUME_COMMON + ["only the end-to-end path with time, retries and multi-step I/O is decided; the purely combinatorial part of the statement is not claimed"]},
-    "C12": {"families": ["c12", "c12o"], "runs": {"quick": 20000, "thorough": 400000}, "level": "exploration", "timeout_ms": 60000,
+    "C12": {"families": ["c12", "c12o"], "runs": {"quick": 20000, "thorough": 400000}, "level": "exploration", "timeout_ms": 30000,
         "rule": "one evaluation = one simulated run of the whole daemon: 1..3 client connections issue hostile encode/decode/read/write/find commands (overflowing, malformed, unknown types) interleaved with probe commands whose result a pristine instance gives (reference codec); the simulated kernel additionally leaves errno clobbered after successful calls. Non-trivial = at least one probe judged; distinct = distinct trace hashes among those.",
         "components": {"real": ["whole daemon except main()"], "stub": ["as C09"]},
         "assumptions": ASSUME_COMMON + ["history independence is decided for the operations that pass through the daemon; leakage between two fields of one pure call is not covered"]},
-    "C16": {"families": ["c16"], "runs": {"quick": 15000, "thorough": 300000}, "level": "exploration", "timeout_ms": 60000,
+    "C16": {"families": ["c16"], "runs": {"quick": 15000, "thorough": 300000}, "level": "exploration", "timeout_ms": 30000,
         "rule": "one evaluation = one simulated run of the whole daemon with a generated ACL (users, default levels, level names that are prefixes/suffixes/infixes of each other, '*'), levelled messages, and 2..5 interleaved TCP sessions (auth right/wrong/unknown, read/write by name with and without circuit, hex forms, read -p) plus HTTP /data requests with user and secret. Non-trivial = at least one command judged; distinct = distinct trace hashes.",
         "components": {"real": ["whole daemon except main()"], "stub": ["as C09"]},
         "assumptions": ASSUME_COMMON + ["the hex command (--enablehex) and find -l are outside the statement"]},
-    "C18": {"families": ["c18t", "c18h", "c18m"], "runs": {"quick": 24000, "thorough": 400000}, "level": "exploration", "timeout_ms": 60000,
+    "C18": {"families": ["c18t", "c18h", "c18m"], "runs": {"quick": 24000, "thorough": 400000}, "level": "exploration", "timeout_ms": 30000,
         "rule": "one evaluation = one simulated run of the whole daemon: TCP command lines over {a,b,blank,double quote,single quote} under seeded TCP segmentation, observed through 'encode STR:16 VALUE' (the response is the hex of exactly the argument the interpreter saw; a wrong argument count shows as the usage text); HTTP GET requests over a fixed html root with a sentinel file outside it, URIs with percent escapes (incl. double encoding, encoded dots and slashes). Non-trivial = at least one command judged; distinct = distinct trace hashes.",
         "components": {"real": ["whole daemon except main()"], "stub": ["as C09"]},
         "assumptions": ASSUME_COMMON + ["pipelined TCP command lines are not generated (the client protocol is request/response)", "invalid percent escapes are not judged"]},
     # sanitizers and watchdogs watch every family
-    "C20": {"families": ["c20"] * 10 + ["c14e", "c14p", "c01a", "c01b", "c15", "c04", "c09", "c12", "c12o", "c16", "c18t", "c18h", "c18m", "c13", "c17"], "runs": {"quick": 20000, "thorough": 300000}, "level": "exploration", "timeout_ms": 90000,
+    "C20": {"families": ["c20"] * 10 + ["c14e", "c14e", "c14e", "c14p", "c01a", "c01b", "c15", "c04", "c04s", "c09", "c12", "c12o", "c16", "c18t", "c18h", "c18m", "c13", "c17", "c09w", "c09s", "c09f", "c02", "c03"], "runs": {"quick": 20000, "thorough": 300000}, "level": "exploration", "timeout_ms": 30000,
         "claims": ["C20"],
         "rule": "one evaluation = one simulated run under ASan+UBSan: (c20) whole daemon with garbage command lines, HTTP requests, definition text through define/read -def/decode/encode, garbage symbols on the bus, then valid probes that must still be answered correctly; (c14e) arbitrary adapter frames; (c01a, c15) arbitrary bus traffic with and without registered answers. Any sanitizer report, abort, deadlock, step budget overrun or wrong probe result is a violation. Non-trivial as in the families; distinct = distinct trace hashes.",
         "components": {"real": ["whole daemon except main() (c20); protocol stack (c01a, c15); device layer (c14e)"], "stub": ["as C09"]},
